@@ -27,7 +27,7 @@ pub enum WOp {
 #[derive(Clone, Debug, Serialize, Deserialize, PartialEq)]
 pub struct ROp { pub reads: Vec<K>, pub proves: Vec<K>, pub hold: u32, #[serde(default)] pub helpers: u32 }
 #[derive(Clone, Debug, Serialize, Deserialize, PartialEq)]
-pub struct ConcPlan { pub initial: Vec<(K, VSpec)>, pub writers: Vec<Vec<WOp>>, pub readers: Vec<Vec<ROp>>, pub initial_commits: u32 }
+pub struct ConcPlan { pub initial: Vec<(K, VSpec)>, pub writers: Vec<Vec<WOp>>, pub readers: Vec<Vec<ROp>>, pub initial_commits: u32, #[serde(default)] pub cold: bool }
 
 static CLOCK: AtomicU64 = AtomicU64::new(1);
 fn tick() -> u64 { CLOCK.fetch_add(1, Ordering::SeqCst) }
@@ -76,6 +76,13 @@ fn conc<H: HashAlgorithm + Send + Sync + 'static>(scen: &Scenario, dir: PathBuf,
         for (k, v) in part { cur.insert(k.0, v); }
         rep.lock().unwrap().commits += 1;
     }
+    // cold caches: close and reopen, so that the tasks' reads and proofs have to fetch leaves and
+    // pages (concurrent misses from several tasks, also within one session)
+    let nomt = if plan.cold {
+        let n = match Arc::try_unwrap(nomt) { Ok(n) => n, Err(_) => { viol(&rep, "HARNESS", "harness-panic", "handle still shared".into()); return; } };
+        drop(n);
+        match Nomt::<H>::open(to_options(&dir, &scen.opts)) { Ok(n) => Arc::new(n), Err(e) => { viol(&rep, &scen.property, "reopen-failed", format!("{e:#}")); return; } }
+    } else { nomt };
     let hist: Hist = Arc::new(Mutex::new(Vec::new()));
     let sess_ids = Arc::new(AtomicU64::new(0));
     let mut handles = Vec::new();
